@@ -16,6 +16,7 @@ use std::time::{Duration, Instant};
 #[derive(Clone, Debug, PartialEq)]
 pub enum Ev {
     Started(i32),
+    Acquired(i32),
     Computed(i32),
     Exited(i32, bool),
     Applied(String),
@@ -25,6 +26,8 @@ pub enum Ev {
 #[derive(Clone, Copy, PartialEq, Eq, Hash, Debug)]
 pub enum Phase {
     Started,
+    /// inside the computation: the worker holds its (shared) handle on the server
+    Acquired,
     Computed,
     Exited,
 }
@@ -69,6 +72,7 @@ pub fn install_router_hook() {
     iwes::router::verif::set_hook(Box::new(|e: &Event| {
         let (ev, gate) = match e {
             Event::Started(id) => (Ev::Started(id_of(id)), Some((id_of(id), Phase::Started))),
+            Event::Acquired(id) => (Ev::Acquired(id_of(id)), Some((id_of(id), Phase::Acquired))),
             Event::Computed(id) => (Ev::Computed(id_of(id)), Some((id_of(id), Phase::Computed))),
             Event::Exited(id, p) => (Ev::Exited(id_of(id), *p), Some((id_of(id), Phase::Exited))),
             Event::NotificationApplied(m) => (Ev::Applied(m.clone()), None),
@@ -154,6 +158,26 @@ pub fn wait_for(pred: impl Fn(&[(u64, Ev)], &HashSet<(i32, Phase)>) -> bool, wat
         }
         if t0.elapsed() > watchdog {
             crate::mon::note_watchdog();
+            return false;
+        }
+        let (ng, _) = CV
+            .wait_timeout(g, Duration::from_millis(20))
+            .unwrap_or_else(|e| e.into_inner());
+        g = ng;
+    }
+}
+
+/// like `wait_for`, but a stall is reported to the caller only (used for bounded-progress verdicts)
+pub fn wait_for_quiet(pred: impl Fn(&[(u64, Ev)], &HashSet<(i32, Phase)>) -> bool, limit: Duration) -> bool {
+    let t0 = Instant::now();
+    let mut g = LOG.lock().unwrap_or_else(|e| e.into_inner());
+    loop {
+        if let Some(l) = g.as_ref() {
+            if pred(&l.events, &l.waiting) {
+                return true;
+            }
+        }
+        if t0.elapsed() > limit {
             return false;
         }
         let (ng, _) = CV
